@@ -103,16 +103,20 @@ def r_literal_guard(F, R):
                 detail="every path to the literal store must either see an empty input or pass "
                        "`self.decode.get(first byte)` on its unassigned edge; guarding blocks: %s" % sorted(good))
     # (5) dictionary hit stores exactly one byte, the tag found for the whole input
-    ok5 = False
+    from expr import nobb
+    get_payload = ("call", ("BTreeMap", "get"), (("place", b.key, ("arg", 1), ("f:encode",)), param), ("v:Some", "f:0"))
+    verdicts = []
     for (bi, t, a) in hits:
-        if a[0] == "call" and a[1] == ("array", "as_slice") and a[2] and a[2][0][0] == "agg" and \
-                a[2][0][1] == "array" and len(a[2][0][2]) == 1:
-            el = a[2][0][2][0]
-            if el[0] == "call" and el[1] == ("BTreeMap", "get") and \
-                    el[2] == (("place", b.key, ("arg", 1), ("f:encode",)), param):
-                ok5 = True
-    R.check("R-CODEC", b.label(), ok5 and len(hits) == 1, construct="dictionary hit stores exactly the one tag byte",
-            where=b.where(), detail="hit stores: %s" % [show(a)[:100] for (_, _, a) in hits])
+        arrays = [nd for nd in walk(nobb(a)) if nd[0] == "agg" and nd[1] == "array"]
+        if not arrays:
+            continue
+        for arr in arrays:
+            verdicts.append(len(arr[2]) == 1 and arr[2][0] == get_payload)
+    if not verdicts:
+        R.undecided_site("R-CODEC", b.label(), "dictionary-hit store not recognised: %s" % [show(a)[:80] for (_, _, a) in hits])
+    else:
+        R.check("R-CODEC", b.label(), all(verdicts), construct="dictionary hit stores exactly the one tag byte",
+                where=b.where(), detail="hit stores: %s" % [show(a)[:100] for (_, _, a) in hits])
 
 
 def r_emptiness(F, R):
@@ -328,14 +332,19 @@ def r_tags(F, R):
                                             for nd in walk(pushed))
             # (a) bit-clear edge: the bit test fact differs between Some-push and None-push
             def bit_fact(bi):
+                """'set' / 'clear': what the dominating test of the seen-bitmap says on this edge"""
                 for f in facts_at(ctx, bi):
-                    if f[0] in ("Eq", "Ne") and any(nd[0] == "bin" and nd[1] == "BitAnd" for nd in walk(f[1])):
-                        return f[0]
+                    if f[0] in ("Eq", "Ne") and any(nd[0] == "bin" and nd[1] == "BitAnd" for nd in walk(f[1])) \
+                            and f[2][0] == "const" and f[2][1] in ("0", "1"):
+                        is_zero = f[2][1] == "0"
+                        if (f[0] == "Eq") == is_zero:
+                            return "clear"
+                        return "set"
                 return None
             fa_s = bit_fact(sbi)
             fa_i = bit_fact(ibi)
             fa_n = [bit_fact(bi) for (bi, _) in nones]
-            oka = fa_s == "Eq" and fa_i == "Eq" and all(x == "Ne" for x in fa_n) and bool(fa_n)
+            oka = fa_s == "clear" and fa_i == "clear" and all(x == "set" for x in fa_n) and bool(fa_n)
             # (d) alignment: from the loop body entry, every way back to the loop head passes a table
             #     push, unless the heavy-hitter iterator reported exhaustion
             body_entry = None
